@@ -44,7 +44,7 @@ def traitsName : Option Traits → String
   | none => "-"
   | some t => match t.id with
     | 1 => "p1" | 2 => "p4" | 3 => "p24" | 4 => "z" | 5 => "c" | 6 => "m4" | 7 => "m8" | 8 => "n4" | 9 => "f8"
-    | 11 => "x1" | 12 => "x12" | 13 => "xe" | 14 => "i" | 15 => "d" | _ => "?"
+    | 11 => "x1" | 12 => "x12" | 13 => "xe" | 14 => "i" | 15 => "d" | 16 => "xm" | 17 => "xp" | _ => "?"
 
 def bufOf (m : State) (h : Nat) : Option Buf := (m.handle h).bind m.buf?
 
@@ -434,6 +434,8 @@ def xKindOf : String → Option XKind
   | "u1" => some { t := xTraits1, unique := true }
   | "u12" => some { t := xTraits12, unique := true }
   | "ue" => some { t := xTraitsE, unique := true }
+  | "mp" => some { t := { id := 16, size := 2, init := false, fini := none }, unique := false }
+  | "pa" => some { t := { id := 17, size := 8, init := false, fini := none }, unique := false }
   | _ => none
 
 def intArg (s : String) : Option Int :=
@@ -458,7 +460,9 @@ def xData (s : String) : Option (List Byte × Bool) :=
   else (parseHex s).map fun b => (b, false)
 
 /-- the value inserted/assigned for a one-byte argument -/
-def xVal (k : XKind) (b : Byte) : List Byte := (List.range k.t.size).map fun i => UInt8.ofNat (b.toNat + i)
+def xVal (k : XKind) (b : Byte) : List Byte :=
+  if k.t.id = 17 then b :: Heap.zeros 7      -- a pointer with that numeric value
+  else (List.range k.t.size).map fun i => UInt8.ofNat (b.toNat + i)
 
 def mapUnit {α} (r : Out α) : Out Unit :=
   match r with
@@ -568,6 +572,32 @@ def stepX (elem : Bool) (st : St) (w : List String) : St × String :=
             let sz := k.t.size
             let n := v.length / sz
             let isE := k.t.init
+            if st.xkind = "mp" then
+              -- map<uint8_t, uint8_t>: S = the list of (key, value) pairs as a value of its own
+              match op, args with
+              | "mset", [kd, vd] =>
+                match xData kd, xData vd with
+                | some ([key], false), some ([val], false) =>
+                  let idx := (List.range (v.length / 2)).find? fun i => v.getD (2 * i) 0 = key
+                  let v' := match idx with
+                    | some i => v.take (2 * i + 1) ++ [val] ++ v.drop (2 * i + 2)
+                    | none => v ++ [key, val]
+                  finishX elem st (mapSet m h k key val) boolRet "false" [okAlt st h v', refAlt st]
+                | _, _ => bad
+              | "mget", [kd] =>
+                match xData kd with
+                | some ([key], false) =>
+                  let idx := (List.range (v.length / 2)).find? fun i => v.getD (2 * i) 0 = key
+                  match idx, mapGet m h key with
+                  | some i, some b =>
+                    let hx := toHex [b]
+                    let want := toHex [v.getD (2 * i + 1) 0]
+                    emit elem st "ok" hx hx [(s!"ok {want}", st.sp)]
+                  | none, none => emit elem st "refused" "-" "null" [("refused -", st.sp)]
+                  | _, _ => (st, "bad-op model/spec disagree")
+                | _ => bad
+              | _, _ => bad
+            else
             match op, args with
             | "insert", [pos, dat] =>
               match intArg pos, xData dat with
@@ -616,6 +646,26 @@ def stepX (elem : Bool) (st : St) (w : List String) : St × String :=
                 else finishX elem st (uReserve m h k c.toNat) boolRet "false" [okAlt st h v, refAlt st]
               | none => bad
             | "detach", [] => finishX elem st (uDetach m h k) boolRet "false" [okAlt st h v, refAlt st]
+            | "swap", [p1, p2] =>
+              if st.xkind ≠ "pa" then bad
+              else
+                match intArg p1, intArg p2 with
+                | some p1, some p2 =>
+                  let len := v.length / 8
+                  let alts :=
+                    if p1 < 0 ∨ p2 < 0 ∨ p1.toNat ≥ len ∨ p2.toNat ≥ len then [refAlt st]
+                    else
+                      let es := elems8 v
+                      let a := es.getD p1.toNat []
+                      let b := es.getD p2.toNat []
+                      [okAlt st h ((es.set p1.toNat b).set p2.toNat a).flatten, refAlt st]
+                  finishX elem st (swapX m h k p1 p2) boolRet "false" alts
+                | _, _ => bad
+            | "compact", [] =>
+              if st.xkind ≠ "pa" then bad
+              else
+                let kept := ((elems8 v).filter fun e => e ≠ Heap.zeros 8).flatten
+                finish elem st (compactX m h k) noDetail (fun _ _ => "-") [okAlt st h kept, okAlt st h v]
             | "trim", [cnt] =>
               match nat? cnt with
               | some c =>
